@@ -26,6 +26,8 @@ def cases(tier, seed):
     # the default period prior declared in other units: draws (as quantities) lie in the declared domain and are log-uniform on it
     for pu in (("day", "day"), ("yr", "yr"), ("h", "day"), ("yr", "day")):
         yield f"default-P/{pu}", {"kind": "default-P", "units": list(pu), "seed": int(seed) + 3}
+    # trend sigmas given as a list, each in a unit of its own: every v_i prior is Normal(0, sigma_i) in the unit sigma_i was given in
+    yield "trend-sigma/list-mixed-units", {"kind": "trend-sigma", "seed": int(seed) + 4}
     for gl in (False, True):
         for cK in (False, True):
             yield f"lnprior/{gl}/{cK}", {"kind": "lnprior", "generate_linear": gl, "customK": cK, "seed": int(seed) + 2}
@@ -96,6 +98,25 @@ def check(inp):
         ks = float(np.max(np.abs(F - (np.arange(1, len(F) + 1) - 0.5) / len(F))))
         if ks > 0.045:      # n = 4000: false-alarm probability < 1e-9
             bad("default_nonlinear_prior", "period-draws-log-uniform-on-the-declared-domain", ks=ks)
+        return fails
+    if inp["kind"] == "trend-sigma":
+        from thejoker import JokerPrior
+        import thejoker.units as xu
+        given = [10 * u.km / u.s, 100 * u.m / u.s / u.day, 3e-3 * u.km / u.s / u.yr ** 2]
+        for form in ("list", "dict"):
+            sv = list(given) if form == "list" else {f"v{i}": g for i, g in enumerate(given)}
+            prior = JokerPrior.default(P_min=2 * u.day, P_max=100 * u.day, sigma_K0=25 * u.km / u.s, sigma_v=sv, poly_trend=3)
+            for i, g in enumerate(given):
+                d = prior.model[f"v{i}"]
+                mu_, sd_ = [float(p.eval()) for p in d.owner.op.dist_params(d.owner)[:2]]
+                unit = getattr(d, xu.UNIT_ATTR_NAME)
+                if mu_ != 0.0 or not unit.is_equivalent(g.unit) or abs((sd_ * unit).to_value(g.unit) - g.value) > 1e-12 * g.value:
+                    bad("default_linear_prior", f"v{i}-is-a-zero-mean-normal-with-the-given-sigma-and-unit[{form}]", declared=str(g), got=f"{sd_} {unit}")
+            smp = prior.sample(size=2000, rng=np.random.default_rng(inp["seed"]), generate_linear=True)
+            for i, g in enumerate(given):
+                sd = float(np.std(smp[f"v{i}"].to_value(g.unit)))
+                if abs(sd / g.value - 1) > 0.15:       # n = 2000: 0.15 is > 9 sigma of the sample standard deviation
+                    bad("JokerPrior.sample", f"v{i}-draws-have-the-declared-standard-deviation[{form}]", declared=str(g), got=sd)
         return fails
     if inp["kind"] == "kipping":
         from thejoker import distributions as D
